@@ -12,12 +12,32 @@
 use std::cell::RefCell;
 use std::panic::AssertUnwindSafe;
 
-use hv_common::{Rng, Trace, Value, json};
+use hv_common::{Rng, Value, json};
 use hydro_lang::live_collections::stream::{ExactlyOnce, TotalOrder};
 use hydro_lang::prelude::*;
 use hydro_test::cluster::raft::{LeaderView, LogEntry, RaftConfig, Replica, raft_server};
 
 const N: usize = 3;
+
+/// ndjson writer flushed after every event: a protocol assert inside the simulated dataflow can
+/// abort the whole process, and everything recorded before must already be on disk.
+struct Trace {
+    f: std::fs::File,
+    lines: usize,
+}
+impl Trace {
+    fn create(path: &str) -> Self {
+        Trace { f: std::fs::File::create(path).expect("create trace"), lines: 0 }
+    }
+    fn ev(&mut self, v: Value) {
+        use std::io::Write;
+        let mut s = serde_json::to_string(&v).unwrap();
+        s.push('\n');
+        self.f.write_all(s.as_bytes()).unwrap();
+        self.lines += 1;
+    }
+    fn finish(self) {}
+}
 
 #[derive(Clone, Copy, Debug)]
 enum Inp {
